@@ -1,1 +1,334 @@
-pub fn run(_o: &crate::util::Opts) -> i32 { 0 }
+//! C01 stream: arithmetic expression trees with an independent exact oracle.
+//!
+//! Writes req.txt (request lines), expect.txt (what unbounded-precision arithmetic under the
+//! documented precedence gives: `number n/d -` or `err`), stats.json.
+use crate::evalsess::req_line;
+use crate::util::{Opts, Rng};
+use num_bigint::BigInt;
+use num_rational::BigRational;
+use num_traits::{Signed, ToPrimitive, Zero};
+use std::io::Write;
+
+#[derive(Clone, Debug)]
+pub enum A {
+    Lit(BigRational, String),
+    Bin(Op, Box<A>, Box<A>),
+    Neg(Box<A>),
+    Pos(Box<A>),
+}
+
+#[derive(Clone, Copy, Debug, PartialEq)]
+pub enum Op { Add, Sub, Mul, Div, Frac, Juxt, Pow, Mod, Shl, Shr, And, Or, Xor }
+
+pub const OPS: [Op; 13] = [Op::Add, Op::Sub, Op::Mul, Op::Div, Op::Frac, Op::Juxt, Op::Pow, Op::Mod, Op::Shl, Op::Shr, Op::And, Op::Or, Op::Xor];
+
+fn pow2(k: u32) -> BigRational { BigRational::from_integer(BigInt::from(2).pow(k)) }
+
+pub struct Huge;
+const MAX_BITS: u64 = 200_000;
+
+fn sz(v: &BigRational) -> u64 { v.numer().bits() + v.denom().bits() }
+
+/// textbook semantics; Ok(None) = undefined; Err(Huge) = some intermediate value would be
+/// astronomically large (the case is not generated).
+pub fn spec(e: &A) -> Result<Option<BigRational>, Huge> {
+    Ok(match e {
+        A::Lit(v, _) => Some(v.clone()),
+        A::Neg(x) => spec(x)?.map(|v| -v),
+        A::Pos(x) => spec(x)?,
+        A::Bin(op, l, r) => {
+            let a = match spec(l)? { Some(a) => a, None => return Ok(None) };
+            let b = match spec(r)? { Some(b) => b, None => return Ok(None) };
+            if sz(&a) + sz(&b) > MAX_BITS { return Err(Huge); }
+            match op {
+                Op::Add => Some(a + b),
+                Op::Sub => Some(a - b),
+                Op::Mul | Op::Juxt => Some(a * b),
+                Op::Div | Op::Frac => if b.is_zero() { None } else { Some(a / b) },
+                Op::Pow => {
+                    if !b.is_integer() { return Err(Huge); } // non-integer powers are outside C01
+                    let k = match b.to_integer().to_i64() { Some(k) if k.abs() < (1 << 31) => k, _ => return Ok(None) };
+                    if k < 0 && a.is_zero() { return Ok(None); }
+                    if sz(&a).saturating_mul(k.unsigned_abs().max(1)) > MAX_BITS { return Err(Huge); }
+                    let p = BigRational::new(a.numer().pow(k.unsigned_abs() as u32), a.denom().pow(k.unsigned_abs() as u32));
+                    Some(if k < 0 { p.recip() } else { p })
+                }
+                Op::Mod => {
+                    if b.is_zero() { return Ok(None); }
+                    let q = (&a / &b).trunc();
+                    Some(a - b * q)
+                }
+                Op::Shl | Op::Shr => {
+                    if !b.is_integer() { return Ok(None); }
+                    let k = match b.to_integer().to_i64() { Some(k) if k.abs() < (1 << 31) => k, _ => return Ok(None) };
+                    if sz(&a).saturating_add(k.unsigned_abs()) > MAX_BITS { return Err(Huge); }
+                    let k = if *op == Op::Shl { k } else { -k };
+                    Some(if k >= 0 { a * pow2(k as u32) } else { a / pow2((-k) as u32) })
+                }
+                Op::And | Op::Or | Op::Xor => {
+                    if !a.is_integer() || !b.is_integer() { return Ok(None); }
+                    let (x, y) = (a.to_integer(), b.to_integer());
+                    Some(BigRational::from_integer(match op { Op::And => x & y, Op::Or => x | y, _ => x ^ y }))
+                }
+            }
+        }
+    })
+}
+
+fn level(e: &A) -> u8 {
+    match e {
+        A::Lit(..) | A::Neg(_) | A::Pos(_) => 5,
+        A::Bin(op, ..) => match op {
+            Op::Add | Op::Sub => 0,
+            Op::Mul | Op::Div | Op::Mod | Op::Shl | Op::Shr | Op::And | Op::Or | Op::Xor => 1,
+            Op::Juxt => 2,
+            Op::Frac => 3,
+            Op::Pow => 4,
+        },
+    }
+}
+
+fn starts_with_sign(e: &A) -> bool {
+    match e {
+        A::Neg(_) | A::Pos(_) => true,
+        A::Lit(..) => false,
+        A::Bin(op, l, _) => { let _ = op; starts_with_sign(l) }
+    }
+}
+
+/// Renders `e` where the grammar expects a phrase of at least `need`; `rng` adds optional
+/// redundant parentheses, alternative operator spellings and spacing.
+pub fn render(e: &A, need: u8, rng: &mut Rng, out: &mut String) {
+    let lv = level(e);
+    let paren = lv < need || rng.chance(1, 12);
+    if paren { out.push('('); if rng.chance(1, 4) { out.push(' '); } }
+    match e {
+        A::Lit(_, s) => out.push_str(s),
+        A::Neg(x) => { out.push_str(if rng.chance(1, 6) { "\u{2212}" } else { "-" }); if rng.chance(1, 5) { out.push(' '); } render(x, 5, rng, out); }
+        A::Pos(x) => { out.push('+'); render(x, 5, rng, out); }
+        A::Bin(op, l, r) => {
+            let sp = |rng: &mut Rng, out: &mut String| { if rng.chance(3, 4) { out.push(' '); } };
+            match op {
+                Op::Add | Op::Sub => {
+                    render(l, 0, rng, out);
+                    // a space is forced before a sign so `a -b` never becomes juxtaposition by accident
+                    out.push(' ');
+                    out.push_str(if *op == Op::Add { "+" } else if rng.chance(1, 6) { "\u{2212}" } else { "-" });
+                    sp(rng, out);
+                    render(r, 1, rng, out);
+                }
+                Op::Mul | Op::Div | Op::Mod | Op::Shl | Op::Shr | Op::And | Op::Or | Op::Xor => {
+                    render(l, 1, rng, out);
+                    let sym = match op {
+                        Op::Mul => "*", Op::Div => if rng.chance(1, 5) { " per " } else { "/" }, Op::Mod => " mod ", Op::Shl => "<<",
+                        Op::Shr => ">>", Op::And => " and ", Op::Or => " or ", _ => " xor ",
+                    };
+                    sp(rng, out); out.push_str(sym); sp(rng, out);
+                    render(r, 2, rng, out);
+                }
+                Op::Juxt => {
+                    render(l, 2, rng, out);
+                    out.push(' ');
+                    if starts_with_sign(r) && level(r) >= 3 {
+                        // `a -b` would be a subtraction: the grammar needs parentheses here
+                        out.push('('); render(r, 0, rng, out); out.push(')');
+                    } else { render(r, 3, rng, out); }
+                }
+                Op::Frac => { render(l, 4, rng, out); out.push_str(if rng.chance(1, 8) { "\u{2215}" } else { "|" }); render(r, 4, rng, out); }
+                Op::Pow => { render(l, 5, rng, out); out.push_str(if rng.chance(1, 4) { "**" } else { "^" }); render(r, 4, rng, out); }
+            }
+        }
+    }
+    if paren { if rng.chance(1, 4) { out.push(' '); } out.push(')'); }
+}
+
+fn with_seps(digits: &str, rng: &mut Rng) -> String {
+    // separators may appear after the first digit, anywhere
+    let mut s = String::new();
+    for (i, c) in digits.chars().enumerate() {
+        if i > 0 && rng.chance(1, 7) { s.push(if rng.chance(1, 2) { '_' } else { '\u{2009}' }); }
+        s.push(c);
+    }
+    s
+}
+
+fn ten_pow(k: u32) -> BigInt { BigInt::from(10).pow(k) }
+
+/// a literal with a random notation; its value is computed here positionally
+pub fn rand_lit(rng: &mut Rng, max_digits: usize) -> A {
+    let nd = 1 + rng.below(max_digits as u64) as usize;
+    match rng.below(10) {
+        0 => { // hex
+            let ds: String = (0..nd).map(|_| *rng.pick(&['0','1','2','3','4','5','6','7','8','9','a','b','c','d','e','f','A','B','C','D','E','F'])).collect();
+            let v = BigInt::parse_bytes(ds.to_lowercase().as_bytes(), 16).unwrap();
+            A::Lit(BigRational::from_integer(v), format!("0x{}", with_seps(&ds, rng)))
+        }
+        1 => {
+            let ds: String = (0..nd).map(|_| *rng.pick(&['0','1','2','3','4','5','6','7'])).collect();
+            A::Lit(BigRational::from_integer(BigInt::parse_bytes(ds.as_bytes(), 8).unwrap()), format!("0o{}", with_seps(&ds, rng)))
+        }
+        2 => {
+            let ds: String = (0..nd).map(|_| *rng.pick(&['0','1'])).collect();
+            A::Lit(BigRational::from_integer(BigInt::parse_bytes(ds.as_bytes(), 2).unwrap()), format!("0b{}", with_seps(&ds, rng)))
+        }
+        _ => {
+            let int: String = (0..nd).map(|_| char::from(b'0' + rng.below(10) as u8)).collect();
+            let mut v = BigRational::from_integer(BigInt::parse_bytes(int.as_bytes(), 10).unwrap());
+            let mut s = with_seps(&int, rng);
+            let lead_dot = rng.chance(1, 12);
+            if lead_dot { s = String::new(); v = BigRational::zero(); }
+            if lead_dot || rng.chance(1, 3) {
+                let nf = 1 + rng.below(max_digits as u64) as usize;
+                let fr: String = (0..nf).map(|_| char::from(b'0' + rng.below(10) as u8)).collect();
+                v += BigRational::new(BigInt::parse_bytes(fr.as_bytes(), 10).unwrap(), ten_pow(nf as u32));
+                s.push('.'); s.push_str(&with_seps(&fr, rng));
+            }
+            if rng.chance(1, 4) {
+                let k = rng.range(-40, 40);
+                s.push_str(*rng.pick(&["e", "E", "ee", "eE"]));
+                if k < 0 { s.push('-'); } else if rng.chance(1, 3) { s.push('+'); }
+                let ks = format!("{}{}", if rng.chance(1, 5) { "00" } else { "" }, k.abs());
+                s.push_str(&with_seps(&ks, rng));
+                let p = BigRational::from_integer(ten_pow(k.unsigned_abs() as u32));
+                v = if k < 0 { v / p } else { v * p };
+            }
+            A::Lit(v, s)
+        }
+    }
+}
+
+fn small_int_lit(rng: &mut Rng, lo: i64, hi: i64) -> A {
+    let k = rng.range(lo, hi);
+    let l = A::Lit(BigRational::from_integer(BigInt::from(k.abs())), format!("{}", k.abs()));
+    if k < 0 { A::Neg(Box::new(l)) } else { l }
+}
+
+pub fn rand_tree(rng: &mut Rng, depth: u32, max_digits: usize) -> A {
+    if depth == 0 || rng.chance(1, 5) {
+        let l = rand_lit(rng, max_digits);
+        return if rng.chance(1, 6) { A::Neg(Box::new(l)) } else { l };
+    }
+    match rng.below(16) {
+        0 => A::Neg(Box::new(rand_tree(rng, depth - 1, max_digits))),
+        1 => A::Pos(Box::new(rand_tree(rng, depth - 1, max_digits))),
+        k => {
+            let op = OPS[(k as usize - 2) % OPS.len()];
+            let l = rand_tree(rng, depth - 1, max_digits);
+            let r = match op {
+                Op::Pow => small_int_lit(rng, -6, 9),
+                Op::Shl | Op::Shr => if rng.chance(1, 6) { rand_tree(rng, depth - 1, 3) } else { small_int_lit(rng, -70, 130) },
+                Op::And | Op::Or | Op::Xor if rng.chance(3, 4) => int_tree(rng, depth - 1, max_digits),
+                _ => rand_tree(rng, depth - 1, max_digits),
+            };
+            let l = match op { Op::And | Op::Or | Op::Xor if rng.chance(3, 4) => int_tree(rng, depth - 1, max_digits), _ => l };
+            A::Bin(op, Box::new(l), Box::new(r))
+        }
+    }
+}
+
+/// trees that are integer-valued by construction (so bit operators are exercised on their success path)
+fn int_tree(rng: &mut Rng, depth: u32, max_digits: usize) -> A {
+    let lit = |rng: &mut Rng| {
+        let nd = 1 + rng.below(max_digits as u64) as usize;
+        let ds: String = (0..nd).map(|_| char::from(b'0' + rng.below(10) as u8)).collect();
+        let l = A::Lit(BigRational::from_integer(BigInt::parse_bytes(ds.as_bytes(), 10).unwrap()), ds);
+        if rng.chance(1, 3) { A::Neg(Box::new(l)) } else { l }
+    };
+    if depth == 0 || rng.chance(1, 3) { return lit(rng); }
+    let op = *rng.pick(&[Op::Add, Op::Sub, Op::Mul, Op::Juxt, Op::And, Op::Or, Op::Xor, Op::Shl]);
+    let l = int_tree(rng, depth - 1, max_digits);
+    let r = if op == Op::Shl { small_int_lit(rng, 0, 90) } else { int_tree(rng, depth - 1, max_digits) };
+    A::Bin(op, Box::new(l), Box::new(r))
+}
+
+fn boundary_alphabet() -> Vec<A> {
+    let lit = |n: &str, d: &str, s: &str| A::Lit(BigRational::new(n.parse().unwrap(), d.parse().unwrap()), s.to_string());
+    vec![
+        lit("0", "1", "0"), lit("1", "1", "1"), A::Neg(Box::new(lit("1", "1", "1"))), lit("2", "1", "2"),
+        lit("1", "2", "0.5"), lit("7", "3", "(7|3)"), lit("18446744073709551617", "1", "18446744073709551617"),
+        lit("18446744073709551615", "1", "0xffffffffffffffff"), lit("1", "1000000000", "1e-9"),
+        A::Neg(Box::new(lit("7", "2", "3.5"))), lit("3", "1", "3"),
+    ]
+}
+
+pub fn emit(e: &A, rng: &mut Rng, req: &mut impl Write, exp: &mut impl Write, stats: &mut Stats) {
+    let mut text = String::new();
+    render(e, 0, rng, &mut text);
+    if rng.chance(1, 10) { text = format!("  {} ", text); }
+    if text.chars().count() > 480 { stats.too_long += 1; return; }
+    let v = match spec(e) { Ok(v) => v, Err(Huge) => { stats.skipped_huge += 1; return; } };
+    writeln!(req, "{}", req_line(&text)).unwrap();
+    match &v {
+        Some(v) => { writeln!(exp, "number {}/{} -", v.numer(), v.denom()).unwrap(); stats.defined += 1; }
+        None => { writeln!(exp, "err").unwrap(); stats.undefined += 1; }
+    }
+    stats.total += 1;
+    if stats.samples.len() < 10 && stats.total % 397 == 1 { stats.samples.push(text); }
+}
+
+#[derive(Default)]
+pub struct Stats { pub total: u64, pub defined: u64, pub undefined: u64, pub skipped_huge: u64, pub too_long: u64, pub samples: Vec<String>, pub ops: std::collections::BTreeMap<String, u64> }
+
+fn count_ops(e: &A, m: &mut std::collections::BTreeMap<String, u64>) {
+    match e {
+        A::Lit(..) => { *m.entry("lit".into()).or_insert(0) += 1; }
+        A::Neg(x) => { *m.entry("neg".into()).or_insert(0) += 1; count_ops(x, m); }
+        A::Pos(x) => { *m.entry("pos".into()).or_insert(0) += 1; count_ops(x, m); }
+        A::Bin(op, l, r) => { *m.entry(format!("{:?}", op)).or_insert(0) += 1; count_ops(l, m); count_ops(r, m); }
+    }
+}
+
+pub fn run(o: &Opts) -> i32 {
+    let mut req = o.writer("req.txt");
+    let mut exp = o.writer("expect.txt");
+    let mut rng = Rng::new(o.seed);
+    let mut st = Stats::default();
+    let alpha = boundary_alphabet();
+
+    // corpus: witnesses of past defects, always first
+    let corpus_path = format!("{}/../../../corpus/C01/queries.txt", o.out);
+    let _ = corpus_path;
+
+    // 1. bounded-exhaustive: every 1-operator tree over the boundary alphabet (both operand orders)
+    for op in OPS {
+        for l in &alpha { for r in &alpha {
+            let e = A::Bin(op, Box::new(l.clone()), Box::new(r.clone()));
+            count_ops(&e, &mut st.ops);
+            emit(&e, &mut rng, &mut req, &mut exp, &mut st);
+        } }
+    }
+    // 2-operator trees: exhaustive in thorough, sampled in quick
+    let two_op_samples = if o.thorough { usize::MAX } else { 6000 };
+    let mut n2 = 0usize;
+    'outer: for op1 in OPS { for op2 in OPS {
+        for a in &alpha { for b in &alpha { for c in &alpha {
+            if !o.thorough && !rng.chance(1, 70) { continue; }
+            let left = A::Bin(op1, Box::new(A::Bin(op2, Box::new(a.clone()), Box::new(b.clone()))), Box::new(c.clone()));
+            let right = A::Bin(op1, Box::new(a.clone()), Box::new(A::Bin(op2, Box::new(b.clone()), Box::new(c.clone()))));
+            for e in [left, right] { count_ops(&e, &mut st.ops); emit(&e, &mut rng, &mut req, &mut exp, &mut st); }
+            n2 += 2;
+            if n2 >= two_op_samples { break 'outer; }
+        } } }
+    } }
+    // 2. random trees: moderate operands
+    let nrand = if o.thorough { 200_000 } else { 8_000 };
+    for _ in 0..nrand {
+        let depth = 1 + rng.below(5) as u32;
+        let e = rand_tree(&mut rng, depth, 12);
+        count_ops(&e, &mut st.ops);
+        emit(&e, &mut rng, &mut req, &mut exp, &mut st);
+    }
+    // 3. random trees: operands of hundreds to thousands of bits
+    let nbig = if o.thorough { 20_000 } else { 1_500 };
+    for _ in 0..nbig {
+        let d = 1 + rng.below(2) as u32; let e = rand_tree(&mut rng, d, 140);
+        count_ops(&e, &mut st.ops);
+        emit(&e, &mut rng, &mut req, &mut exp, &mut st);
+    }
+    req.flush().unwrap(); exp.flush().unwrap();
+    crate::util::write_json(&format!("{}/stats.json", o.out), &serde_json::json!({
+        "total": st.total, "defined": st.defined, "undefined": st.undefined, "skipped_huge": st.skipped_huge,
+        "too_long": st.too_long, "samples": st.samples, "operators": st.ops,
+    }));
+    0
+}
